@@ -339,3 +339,27 @@ Theorem gen_tie_EncryptAES : forall (sha : bytes -> bytes) seal open (payload pa
     end.
 Proof. exact GenTie_C12.tie_EncryptAES. Qed.
 Print Assumptions gen_tie_EncryptAES.
+
+(* ---- phase 2: further ties to the Gallina regenerated from the Go source (proofs/GenTie_C12.v) ---- *)
+From Coq Require Import ZArith NArith List Bool Lia String.
+From Lib Require Import Bytes.
+From Model Require Import C12_DHash.
+From Proofs Require Import C12_DHash GenTie_Lib.
+From Gen Require Import Gen_Consts Gen_Funcs_prelude Gen_Funcs_dhash.
+Import ListNotations.
+Local Open Scope Z_scope.
+From Gen Require Import Gen_Funcs_findclient.
+From Proofs Require Import GenTie_C12.
+
+Theorem gen_FindAsync_skip_ladder_table :
+  forall (dvk : list N -> list N -> list N * option string) (split : list N -> list N * list N * option string)
+         (mh evk md : list N) (mderr : option string),
+  match findclient_FindAsync_skip_ladder dvk split mh evk mderr md with
+  | FFall _ =>
+      snd (dvk evk mh) = None /\ snd (split (fst (dvk evk mh))) = None /\ mderr = None /\ md <> []
+  | FContinue _ _ =>
+      snd (dvk evk mh) <> None \/ snd (split (fst (dvk evk mh))) <> None \/ mderr <> None \/ md = []
+  | _ => False
+  end.
+Proof. exact GenTie_C12.FindAsync_skip_ladder_table. Qed.
+Print Assumptions gen_FindAsync_skip_ladder_table.
